@@ -189,6 +189,15 @@ func (e *kvElection) recordLeaderDuration() {
 	}
 }
 
+// electionCtx returns the election-wide context (nil before Start and after a
+// completed StopWithContext). e.ctx is written under the mutex by Start and
+// StopWithContext; code that does not hold the mutex reads it through here.
+func (e *kvElection) electionCtx() context.Context {
+	e.mu.RLock()
+	defer e.mu.RUnlock()
+	return e.ctx
+}
+
 func (e *kvElection) Start(ctx context.Context) error {
 	e.mu.Lock()
 	defer e.mu.Unlock()
@@ -328,7 +337,7 @@ func (e *kvElection) attemptAcquire() error {
 	if err != nil {
 		log := e.getLogger()
 		log.Error("acquire_failed",
-			append(e.logWithContext(e.ctx),
+			append(e.logWithContext(e.electionCtx()),
 				zap.Error(err),
 				zap.String("error_type", "marshal_error"),
 			)...,
@@ -350,7 +359,7 @@ func (e *kvElection) attemptAcquire() error {
 
 		log := e.getLogger()
 		log.Debug("acquire_failed",
-			append(e.logWithContext(e.ctx),
+			append(e.logWithContext(e.electionCtx()),
 				zap.Error(err),
 				zap.String("error_type", classifyErrorType(err)),
 			)...,
@@ -362,7 +371,7 @@ func (e *kvElection) attemptAcquire() error {
 
 	log := e.getLogger()
 	log.Info("acquire_success",
-		append(e.logWithContext(e.ctx),
+		append(e.logWithContext(e.electionCtx()),
 			zap.String("token", token),
 			zap.Uint64("revision", rev),
 		)...,
@@ -456,7 +465,7 @@ func (e *kvElection) becomeLeader(token string, rev uint64) {
 				if r := recover(); r != nil {
 					log := e.getLogger()
 					log.Error("onpromote_callback_panic",
-						append(e.logWithContext(e.ctx),
+						append(e.logWithContext(e.electionCtx()),
 							zap.Any("panic", r),
 						)...,
 					)
@@ -514,7 +523,7 @@ func (e *kvElection) attemptPriorityTakeover(payloadBytes []byte) error {
 
 	log := e.getLogger()
 	log.Warn("priority_takeover_success",
-		append(e.logWithContext(e.ctx),
+		append(e.logWithContext(e.electionCtx()),
 			zap.String("previous_leader", currentPayload.ID),
 			zap.Int("previous_priority", currentPayload.Priority),
 			zap.Int("our_priority", e.cfg.Priority),
@@ -582,10 +591,11 @@ func (e *kvElection) becomeFollower() bool {
 	if e.ctx != nil && !e.watcherRunning.Load() {
 		e.watcherRunning.Store(true)
 		e.wg.Add(1)
+		watchCtx := e.ctx
 		go func() {
 			defer e.watcherRunning.Store(false)
 			defer e.wg.Done()
-			e.watchLoop(e.ctx)
+			e.watchLoop(watchCtx)
 		}()
 	}
 
@@ -602,7 +612,7 @@ func (e *kvElection) notifyDemoted(reason string) {
 	if onDemote != nil {
 		log := e.getLogger()
 		log.Info("leader_demoted",
-			append(e.logWithContext(e.ctx),
+			append(e.logWithContext(e.electionCtx()),
 				zap.String("reason", reason),
 			)...,
 		)
@@ -652,7 +662,7 @@ func (e *kvElection) Stop() error {
 
 	log := e.getLogger()
 	log.Info("election_stopped",
-		append(e.logWithContext(e.ctx),
+		append(e.logWithContext(e.electionCtx()),
 			zap.Bool("was_leader", wasLeader),
 		)...,
 	)
@@ -672,13 +682,8 @@ func (e *kvElection) Stop() error {
 	case <-time.After(5 * time.Second):
 	}
 
-	if wasLeader && e.onDemote != nil {
-		log.Info("leader_demoted",
-			append(e.logWithContext(e.ctx),
-				zap.String("reason", "stop"),
-			)...,
-		)
-		e.onDemote()
+	if wasLeader {
+		e.notifyDemoted("stop")
 	}
 
 	return nil
@@ -795,7 +800,11 @@ func (e *kvElection) StopWithContext(ctx context.Context, opts StopOptions) erro
 		}
 	}
 
-	if wasLeader && e.onDemote != nil {
+	e.mu.RLock()
+	hasOnDemote := e.onDemote != nil
+	e.mu.RUnlock()
+
+	if wasLeader && hasOnDemote {
 		log := e.getLogger()
 		log.Info("leader_demoted",
 			append(e.logWithContext(ctx),
